@@ -243,9 +243,9 @@ Definition kp_views (ob : mobs) : bool :=
              Bool.eqb (to_has a) (match to_dump a with Some _ => true | None => false end) &&
              Bool.eqb (to_has a) (match to_meta a with Some _ => true | None => false end))
           (o_tgts ob) &&
-  bag_eqb pn_eqb
-    (flat_map (fun kt => match to_dump (snd kt) with Some d => d | None => [] end) (o_tgts ob))
-    (o_star ob).
+  (let all := flat_map (fun kt => match to_dump (snd kt) with Some d => d | None => [] end) (o_tgts ob) in
+   (* the harness lists both in (target, index path) order: linear when they agree *)
+   list_eqb pn_eqb all (o_star ob) || bag_eqb pn_eqb all (o_star ob)).
 
 (** * tag 6: subscribers *)
 
@@ -306,7 +306,7 @@ Fixpoint check_from (i : nat) (s : mstate) (prev : list (string * tobs)) (ksubs 
   | [] => []
   | (o, ob) :: l' =>
       let '(s', r, f, outs) := mstep s o in
-      let v1 := if corr_step s' r f outs ob then [] else [(i, 1%N)] in
+      let v1 := if corr_step o s' r f outs ob then [] else [(i, 1%N)] in
       let vk := map (fun t => (i, t)) (kp_step prev ksubs o ob) in
       v1 ++ vk ++ check_from (S i) s' (o_tgts ob) (ksubs_next ksubs o ob) l'
   end.
